@@ -430,8 +430,12 @@ Definition step (s : st) (l : label) : option (st * list ev) :=
   | MOpen =>
       match cst s, opn s with
       | Idle, None => Some (set_opn (set_queue (set_tagmap s []) []) (Some OSpawned), [])     (* _Init, spawn _OpenImpl *)
-      | Open, _ => Some (s, [])
-      | _, _ => None                 (* a closed MuxSocketTransportSink cannot be opened again; not modelled *)
+      | Idle, Some _ | Open, _ => Some (s, [])     (* _open_result is set: the same result object is returned *)
+      | Closed, None =>
+          (* a second life is attempted: _Init (fresh map, queue, _ping_ar = None) and a new _OpenImpl; _state stays
+             Closed, so the loops it spawns exit at once, the opening ping is never sent and the open fails after 5 s *)
+          Some (set_opn (set_par (set_queue (set_tagmap s []) []) false) (Some OSpawned), [])
+      | Closed, Some _ => None       (* Open() while an earlier _OpenImpl of the closed sink still runs: not modelled *)
       end
   | MOStart => match opn s with Some OSpawned => Some (set_opn s (Some OConn), []) | _ => None end
   | MOConn ok =>
